@@ -347,9 +347,14 @@ package collection
 //@ spec rwOK(rw *RollingWindow) bool = rw != nil && rw.size >= 1 && rw.interval > 0 && 0 <= rw.offset && rw.offset < rw.size && rw.win != nil && rw.win.size == rw.size &&
 //@      len(rw.win.buckets) == rw.size && forall(i.(int), implies(0 <= i && i < rw.size, rw.win.buckets[i] != nil))
 
+// Monitor rule for the window: offset and lastTime are only touched under rw.lock, written only under the exclusive lock.
+//@ lockinv (rw *RollingWindow) lock: 0 <= rw.offset && rw.offset < rw.size
+//@ guarded_by offset, lastTime
+
 //@ func (rw *RollingWindow) Add
 //@   property C16 C01 C02
 //@   flag modifies_typeargs
+//@   flag old_at_lock
 //@   requires rwOK(rw)
 //@   ghost at after updateOffset#0: lemma modWrap(rw.offset, rw.size)
 //@   ghost at after updateOffset#0: rwBagAt[rw][rwE[rw]][v] = rwBagAt[rw][rwE[rw]][v] + 1
@@ -372,11 +377,12 @@ package collection
 //@   goal forall(d.(int), implies(0 <= d && d < n, ringAt(b + d, n) == wrap(b + d, n)))
 //@ func (rw *RollingWindow) Reduce
 //@   property C16 C01 C02
+//@   flag old_at_lock
 //@   requires rwOK(rw) && fn != nil
 //@   flag callbacks_noheap
 //@   iterates fn count rwCount(rw) arg rw.win.buckets[ringAt(rwStart(rw)+idx, rw.size)]
-//@   ghost at entry: lemma modWrap(rw.offset + rwSpan(rw) + 1, rw.size)
-//@   ghost at entry: lemma ringAll(rwStart(rw), rw.size)
+//@   ghost at after RLock#0: lemma modWrap(rw.offset + rwSpan(rw) + 1, rw.size)
+//@   ghost at after RLock#0: lemma ringAll(rwStart(rw), rw.size)
 //@   ensures  implies(old(rwInv(rw)), forall(idx.(int), implies(0 <= idx && idx < rwCount(rw),
 //@              bkBag[rw.win.buckets[ringAt(rwStart(rw)+idx, rw.size)]] == rwBagAt[rw][rwE[rw] + rwSpan(rw) - rw.size + 1 + idx])))
 //@   ensures  implies(old(rwInv(rw)), forall(e.(int), forall(x.(float64), implies(e > rwE[rw], rwBagAt[rw][e][x] == 0))))
@@ -453,12 +459,14 @@ package collection
 
 //@ func (rw *RollingWindow) span
 //@   property C16 C01 C02
+//@   requires held(rw.lock)
 //@   requires rwOK(rw)
 //@   ensures  result == rwSpan(rw)
 //@   modifies nothing
 
 //@ func (rw *RollingWindow) updateOffset
 //@   property C16 C01 C02
+//@   requires heldw(rw.lock)
 //@   requires rwOK(rw)
 //@   flag modifies_typeargs
 //@   ghost at entry: lemma remRange(now - rw.lastTime, rw.interval)
